@@ -5,6 +5,13 @@ HERE = os.path.dirname(os.path.abspath(__file__))
 ALL = ["C%02d" % i for i in range(1, 21)]
 
 CHECKS = {
+ "C18": dict(
+  engine="fs-monitor",
+  technique="filesystem monitoring of real runs: before/after inventory (kind, size, SHA-256, link target, mode) of a canary-filled scratch tree, sys.addaudithook log of every mutating Python-level operation resolved to real paths, and strace -f of true CLI runs, over an enumerated space of workspace/input path configurations",
+  category="exploration",
+  text="Real `lian lang` runs (forked child, ~0.2 s) over 5 placements x 5 workspace namings x 7 addressings (absolute, relative after chdir, through symlinked parents, workspace is a symlink, link/../name, symlinked inputs) x 3 input kinds x 4 old-workspace contents x force on/off = 3328 configurations (thorough: all, exhaustive; quick: seeded covering sample of ~400) plus -inc / -f -inc / C pre-processing / strict-parse families and strace'd CLI runs (6 quick, 36 thorough) with a zygote-honesty comparison. Clauses: nothing outside realpath(workspace) changes; no mutating audit/strace event outside it; nothing pre-existing is deleted without --force; bounded number/volume of copied files and no death in the copy step. Floors on audit operations, snapshot entries, copies and strace runs.",
+  note="Scope: the `lang` sub-command (later phases write through the same Loader rooted at the workspace). The workspace is the documented -w rule evaluated on real paths; creating the workspace's missing ancestor directories is allowed; allow-list /dev, /proc, scratch HOME/MPLCONFIGDIR (matplotlib font cache). An input inside a forced workspace is counted, not asserted for clause (a). Native/child-process writes outside the scratch root are visible only to the strace runs.",
+  design="DESIGN.md §C18"),
  "C06": dict(
   engine="girvm",
   technique="recording wrapper on analyze_reachable_symbols (union over all visits of the in-sets, per analysis frame) judged against dynamic last-definition events of validated executions and against a textbook reaching-definitions solver run on lian's own CFG and definition sets",
